@@ -16,6 +16,7 @@
   direct oracle on the real code and the model on every run, proved only in the per-component form (`_partial`).
 -/
 import SH.Model.Delivery
+import SH.Lemmas.Delivery
 
 namespace SH.Props.C01
 open SH.Delivery SH.Gen.C01
@@ -204,8 +205,7 @@ example : ((insertOne { time := 9, reqs := [(1, 9)], secs := [9], joined := 1 } 
 
 /-! ### agent: a sender gives a second up only after an acknowledgement -/
 
-/-- seconds the agent still holds: historic queue, blocked senders, live disk records -/
-def heldSecs (a : Agent) : List Nat := a.hist.map (·.sec) ++ a.flights.map (·.cbd.sec) ++ a.recs.map (·.sec)
+-- `heldSecs` (seconds the agent still holds: historic queue, blocked senders, live disk records) is SH.Delivery.heldSecs
 
 theorem diskPut_sec (a : Agent) (c : Cbd) : (diskPut a c).2.sec = c.sec := by
   unfold diskPut; split <;> rfl
@@ -478,19 +478,100 @@ example :
     let s2 := run { s1 with resps := [bad] } [.resp 1]
     (s2.inserted, heldSecs s2.ag) = ([], []) := by decide
 
+/-! ### the safety half of C01 for ALL operation sequences (invariant: SH.Lemmas.Delivery, `SInv`) -/
+
+/-- the state reached from any initial configuration by any list of operations (sends, deliveries, insert failures,
+lost answers, aggregator down/up, agent stop/crash, replica failover, clock jumps, memory and disk limits) -/
+def reach (disk saveFirst : Bool) (agentNow window shortWindow aggNow : Nat) (ops : List Op) : State :=
+  run (init disk saveFirst agentNow window shortWindow aggNow) ops
+
+/-- **no_silent_loss** (C01, safety). After ANY sequence of operations, every second that was handed to the send path is
+still held by the agent (historic queue, a blocked sender, or a live disk record), or is in the body of an INSERT that
+succeeded, or was deliberately rejected by an aggregator (outside the window / too far in the future / stale), or is in
+one of the agent's deliberate-drop sets (out of historic window, memory limit without disk copy; memory-only at process
+death). Induction over the op list with the invariant `SInv` (request ids name one second; disk ids name one second and
+are fresh; a descriptor with a disk id has its record unless its second is accounted for; a discard answer on the wire is
+justified; parked contributors have their rows in the bucket). -/
+theorem no_silent_loss (disk saveFirst : Bool) (agentNow window shortWindow aggNow : Nat) (ops : List Op) :
+    ∀ t ∈ (reach disk saveFirst agentNow window shortWindow aggNow ops).flushed,
+      t ∈ heldSecs (reach disk saveFirst agentNow window shortWindow aggNow ops).ag ∨
+      t ∈ (reach disk saveFirst agentNow window shortWindow aggNow ops).inserted ∨
+      t ∈ (reach disk saveFirst agentNow window shortWindow aggNow ops).rejected ∨
+      t ∈ (reach disk saveFirst agentNow window shortWindow aggNow ops).ag.dropped ∨
+      t ∈ (reach disk saveFirst agentNow window shortWindow aggNow ops).ag.lostMem := by
+  intro t ht
+  have h := (sinv_run (sinv_init disk saveFirst agentNow window shortWindow aggNow) ops).safe t ht
+  simp only [safeX, heldX, accA, P, List.map_nil, List.not_mem_nil, false_or] at h
+  rcases h with h | (h | h) | h | h
+  · exact Or.inl h
+  · exact Or.inr (Or.inl h)
+  · exact Or.inr (Or.inr (Or.inl h))
+  · exact Or.inr (Or.inr (Or.inr (Or.inl h)))
+  · exact Or.inr (Or.inr (Or.inr (Or.inr h)))
+
+/-- non-vacuity: a run with an insert failure, a lost answer and an aggregator restart; the theorem's disjuncts are
+all exercised by the scenarios above (`decide` examples) -/
+example : (reach true false 50 1000 3 200 [.recent 201, .recv 1, .tick 0 205 false, .resp 1]).flushed = [201] := by decide
+
+/-- **ack_after_insert_or_reject**, trace level: at every point of every run, every answer on the wire that tells the
+agent to discard (and is not an rpc error) carries a second that is ALREADY in the body of a successful INSERT or was
+deliberately rejected. (An answer is on the wire from the step that produced it, so this is "every discard answer is
+preceded by a successful insert containing the second or by an enumerated rejection".) -/
+theorem ack_after_insert_or_reject (disk saveFirst : Bool) (agentNow window shortWindow aggNow : Nat) (ops : List Op) :
+    ∀ a ∈ (reach disk saveFirst agentNow window shortWindow aggNow ops).resps, a.discard = true → a.err = false →
+      a.sec ∈ (reach disk saveFirst agentNow window shortWindow aggNow ops).inserted ∨
+      a.sec ∈ (reach disk saveFirst agentNow window shortWindow aggNow ops).rejected :=
+  fun a ha hd he => (sinv_run (sinv_init disk saveFirst agentNow window shortWindow aggNow) ops).resp a ha hd he
+
+example : ((reach true false 50 1000 3 200 [.recent 201, .recv 1, .tick 0 205 true]).resps.map (fun a => (a.sec, a.discard)),
+           (reach true false 50 1000 3 200 [.recent 201, .recv 1, .tick 0 205 true]).inserted) = ([(201, true)], [201]) := by decide
+
+/-- an answer names the second of the sender that waits for it: request ids are never reused for another second -/
+theorem answer_matches_sender (disk saveFirst : Bool) (agentNow window shortWindow aggNow : Nat) (ops : List Op) :
+    ∀ a ∈ (reach disk saveFirst agentNow window shortWindow aggNow ops).resps,
+    ∀ f ∈ (reach disk saveFirst agentNow window shortWindow aggNow ops).ag.flights, a.rid = f.rid → a.sec = f.cbd.sec := by
+  intro a ha f hf he
+  have h := sinv_run (sinv_init disk saveFirst agentNow window shortWindow aggNow) ops
+  exact h.ridFun (a.rid, a.sec) (by simp only [ridTags, List.mem_append, List.mem_map]; exact Or.inl (Or.inr ⟨a, ha, rfl⟩))
+    (f.rid, f.cbd.sec) (by simp only [ridTags, List.mem_append, List.mem_map]; exact Or.inl (Or.inl (Or.inl ⟨f, hf, rfl⟩))) he
+
+/-- **erase_after_ack**, trace level: in every run, if a flushed second is held before an operation and no longer held
+after it, then after that operation it is in a successful INSERT, rejected by an aggregator, or in a deliberate-drop set —
+the agent never forgets a second for any other reason, whatever the operation (lost answer, error, restart, …). Together
+with `agentContinue_keeps_unless_ack` (a sender gives a second up only on an answer with discard) and
+`ack_after_insert_or_reject` this is "an erase is preceded by a discard answer for that second or is a deliberate drop". -/
+theorem erase_after_ack (disk saveFirst : Bool) (agentNow window shortWindow aggNow : Nat) (ops : List Op) (op : Op) (t : Nat)
+    (hfl : t ∈ (reach disk saveFirst agentNow window shortWindow aggNow ops).flushed)
+    (hgone : t ∉ heldSecs (step (reach disk saveFirst agentNow window shortWindow aggNow ops) op).1.ag) :
+    t ∈ (step (reach disk saveFirst agentNow window shortWindow aggNow ops) op).1.inserted ∨
+    t ∈ (step (reach disk saveFirst agentNow window shortWindow aggNow ops) op).1.rejected ∨
+    t ∈ (step (reach disk saveFirst agentNow window shortWindow aggNow ops) op).1.ag.dropped ∨
+    t ∈ (step (reach disk saveFirst agentNow window shortWindow aggNow ops) op).1.ag.lostMem := by
+  have h := (sinv_step op (sinv_run (sinv_init disk saveFirst agentNow window shortWindow aggNow) ops)).safe t
+    (flushed_step _ op t hfl)
+  simp only [safeX, heldX, accA, P, List.map_nil, List.not_mem_nil, false_or] at h
+  rcases h with h | (h | h) | h | h
+  · exact absurd h hgone
+  · exact Or.inl h
+  · exact Or.inr (Or.inl h)
+  · exact Or.inr (Or.inr (Or.inl h))
+  · exact Or.inr (Or.inr (Or.inr h))
+
+/-- non-vacuity: the acknowledged second leaves the agent at `resp` and is in storage -/
+example :
+    let s := reach true false 50 1000 3 200 [.recent 201, .recv 1, .tick 0 205 true]
+    (s.flushed, heldSecs s.ag, heldSecs (step s (.resp 1)).1.ag, (step s (.resp 1)).1.inserted) = ([201], [201], [], [201]) := by decide
+
 /-
-  FULL STATEMENT (not proved as one theorem; its three conjuncts are proved above per component and the whole is
-  evaluated on every run by the direct oracle of verif-c01 on the real code, sig=silently-lost / forgot-without-ack /
-  ack-without-insert / not-delivered-after-recovery):
+  STILL NOT PROVED: can_always_finish (schedule-existence liveness)
 
-  theorem no_silent_loss (cfg) (ops : List Op) (s := run (init cfg) ops) :
-      ∀ t ∈ s.flushed, t ∈ heldSecs s.ag ∨ t ∈ s.inserted ∨ t ∈ s.rejected ∨ t ∈ s.ag.dropped ∨ t ∈ s.ag.lostMem
+  theorem can_always_finish (cfg) (ops : List Op) (s := reach cfg ops) (t) (ht : t ∈ heldSecs s.ag)
+      (hw : insideWindows s t) : ∃ more : List Op, faultFree more ∧ more.length ≤ bound s ∧ t ∈ (run s more).inserted
 
-  theorem can_always_finish (cfg) (ops : List Op) (s := run (init cfg) ops) (t) (ht : t ∈ heldSecs s.ag)
-      (hw : insideWindows s t) : ∃ more : List Op, faultFree more ∧ t ∈ (run s more).inserted
-
-  Missing for the first: an inductive invariant tying request ids on the wire, parked contributors and answers to the
-  second of the flight with the same id across all 13 operations. Missing for the second: the schedule construction.
+  The schedule (alive/up everything; recv every request; tick each replica past the window; resp every answer; pop until
+  the queue is empty; repeat) is what the harness's `finish` phase executes on the real code after every generated case,
+  with oracle sig=not-delivered-after-recovery; constructing it as a Lean function of the state and proving that it ends
+  with t inserted was not attempted in this round.
 -/
 
 end SH.Props.C01
